@@ -112,7 +112,7 @@ def render(kinds, d=0, ctx=None):
     if pos != 'elt':
         inner['no_walrus'] = True  # ':=' is not allowed anywhere inside a comprehension iterable expression
     ch = child(inner, False)
-    walrus = '' if ctx.get('cls_nearest') or ctx.get('no_walrus') else f'(cw{s} := e{s}), '
+    walrus = '' if ctx.get('cls_nearest') or ctx.get('no_walrus') else f'(cw{s} := (e{s}, (cwn{s} := e{s}))), '  # a binding inside the value of a binding
     it0, it1 = [f'for e{s} in (cit{s}, {up})'], [f'for e2{s} in e{s} if (e2{s}, cfr2{s})']
     if pos == 'iter0':
         it0, ch = [f'for e{s} in'] + indent(ch), ['0']
@@ -159,6 +159,7 @@ HAND = [
     "l = lambda a, /, b, *c, d=e, **f: (a, b, c, d, f, g)\nm = lambda: (yield_ := 1)" if False else "l = lambda a, /, b, *c, d=e, **f: (a, b, c, d, f, g)",
     "def f():\n    a = 1\n    def g():\n        def h():\n            return a\n        return h\n    a += 1\n    return g",
     "def f():\n    x = [\n      lambda: i for i in range(3)]\n    y = {j: (\n      lambda j=j: j) for j in x}\n    return x, y",
+    "def f():\n    return [(y := g(z := x)) for x in r], (\n  {x for x in r if (p := (\n    lambda d=(q := x): d))},\n  [(a :=\n    [(b := v) for v in s]) for x in r])",
     "async def f():\n    async with a as b:\n        pass\n    async for c in d:\n        pass\n    return [e async for e in g]",
 ]
 
